@@ -897,17 +897,20 @@ func (c *Ctx) ruleHelperAgreement(rule string, htlc bool) {
 		if f == nil {
 			continue
 		}
-		o := c.P.OriginsOf(f)
 		el := "elem(P:" + f.Params[0].Name() + ")"
 		n := 0
-		for _, ci := range Calls(f) {
-			d := c.P.Describe(ci)
-			if d.Name != "schnorr.Sign" {
-				continue
+		// (the Sign call sits in the helper or in a function new on this tree that it hands the message to;
+		// the message is read with this caller's arguments; an indexed element is the element)
+		for _, o := range c.OpContexts(f) {
+			for _, ci := range Calls(o.Fn) {
+				d := c.P.Describe(ci)
+				if d.Name != "schnorr.Sign" {
+					continue
+				}
+				n++
+				msg := o.Of(d.Args[1]).String()
+				R.Check(rule, h.key, "signed message", c.P.InstrPos(ci), msg == h.want(el), "the helper signs the message the mint verifies ("+h.want("x")+")", "signs "+short(msg, 160))
 			}
-			n++
-			msg := o.Of(d.Args[1])
-			R.Check(rule, h.key, "signed message", c.P.InstrPos(ci), msg.String() == h.want(el), "the helper signs the message the mint verifies ("+h.want("x")+")", "signs "+short(msg.String(), 160))
 		}
 		if n == 0 {
 			R.Check(rule, h.key, "signed message", c.P.Pos(f.Pos()), false, "the helper signs the message the mint verifies", "no schnorr.Sign call found")
@@ -921,6 +924,13 @@ func (c *Ctx) ruleHelperAgreement(rule string, htlc bool) {
 			for _, e := range o.AllEdges() {
 				ft := o.EdgeFact(e)
 				if ft == nil || ft.Kind != "bool" || e.Succ != 0 || ft.A == nil {
+					continue
+				}
+				// a library scan is existential by construction
+				if as := ft.A.String(); strings.HasPrefix(as, "slices.ContainsFunc") || strings.HasPrefix(as, "slices.Contains(") || strings.HasPrefix(as, "slices.IndexFunc") || strings.Contains(as, "slices.IndexFunc(") {
+					nFlag++
+					R.Check(rule, c.P.FuncKey(f), "can-sign scan is existential", c.P.InstrPos(e.From.Instrs[len(e.From.Instrs)-1]), true,
+						"the holder may sign when ANY listed key is his (library scan)", "")
 					continue
 				}
 				// a boolean flag variable (not a direct call result / parameter)
